@@ -3089,7 +3089,7 @@ class QuaternionArray(np.ndarray):
         q /= np.linalg.norm(q)
         qQ = np.zeros_like(self.array)
         if order.upper() == 'S':
-            q = np.roll(q, -1, axis=1)
+            q = np.roll(q, 1)    # scalar-last (x, y, z, w) -> scalar-first (w, x, y, z)
         qQ[:, 0] = q[0]*self.w - q[1]*self.x - q[2]*self.y - q[3]*self.z
         qQ[:, 1] = q[0]*self.x + q[1]*self.w + q[2]*self.z - q[3]*self.y
         qQ[:, 2] = q[0]*self.y - q[1]*self.z + q[2]*self.w + q[3]*self.x
